@@ -172,7 +172,9 @@ func (s *immState) roots(v ssa.Value, seen map[ssa.Value]bool, out *[]ssa.Value)
 	case *ssa.Call:
 		if b, ok := x.Call.Value.(*ssa.Builtin); ok && b.Name() == "append" {
 			// the result shares the backing array of the first operand (or is new)
-			s.roots(x.Call.Args[0], seen, out)
+			if !zeroCap(x.Call.Args[0]) {
+				s.roots(x.Call.Args[0], seen, out)
+			}
 			*out = append(*out, v)
 			return
 		}
@@ -458,7 +460,7 @@ func (s *immState) call(site ssa.CallInstruction, val ssa.Value) bool {
 		case "append":
 			// result = first operand's array (or new) + copied elements
 			if val != nil {
-				if s.isOwned(args[0]) && hasRefs(val.Type()) {
+				if s.isOwned(args[0]) && hasRefs(val.Type()) && !zeroCap(args[0]) {
 					if s.setOwned(val) {
 						ch = true
 					}
@@ -614,7 +616,7 @@ func (s *immState) events(in ssa.Instruction, f *ssa.Function, res *immResult, c
 					add("delete", "delete on "+p.KeyTerm(com.Args[0], 4))
 				}
 			case "append":
-				if s.isOwned(com.Args[0]) {
+				if s.isOwned(com.Args[0]) && !zeroCap(com.Args[0]) {
 					add("append", "append to "+p.KeyTerm(com.Args[0], 4)+" (may write into the shared backing array)")
 				}
 			case "copy":
@@ -857,4 +859,26 @@ func sortedInts(m map[int]bool) []int {
 	}
 	sort.Ints(o)
 	return o
+}
+
+// zeroCap: v is `x[:0:0]` (or any three-index slice whose capacity is its low bound): appending to it always
+// allocates, so the result shares nothing with x.
+func zeroCap(v ssa.Value) bool {
+	sl, ok := v.(*ssa.Slice)
+	if !ok || sl.Max == nil {
+		return false
+	}
+	mx, isC := constInt(sl.Max)
+	if !isC {
+		return false
+	}
+	lo := int64(0)
+	if sl.Low != nil {
+		l, isC := constInt(sl.Low)
+		if !isC {
+			return false
+		}
+		lo = l
+	}
+	return mx == lo
 }
